@@ -31,7 +31,7 @@ static const char letter[NU] = { 'k', 'a', 'b', 'c', 'n' };
 
 static int w;                   /* wait-hook calls so far */
 static int mid_kind, mid_user, mid_cycle;       /* 0 none, 1 connect, 2 hang-up */
-static int selftest, midcycles = 4;
+static int selftest, midcycles = 4, force_m;
 static int shutdown_sent, drains;
 static int last_served = -1;    /* for the command()-inside-one-turn check */
 static int cycle_no;            /* main cycle being evaluated (0 = set-up) */
@@ -262,6 +262,7 @@ static void body (void) {
     for (int i = 0; i <= 3; i++) if (U[i].live && U[i].n >= 1 && !U[i].cmode) { list[nl] = i; kind[nl++] = 1; }
     for (int i = 1; i <= 3; i++) if (U[i].live && U[i].n >= 1 && !U[i].cmode) { list[nl] = i; kind[nl++] = 2; }
     int c = vx_choose (nl, "special");
+    if (!c && force_m && nl > 1) c = 1;        /* self-test only: the first candidate's first line is `m` without costing a deviation */
     if (c) U[list[c]].special = kind[c];
   }
   {
@@ -296,6 +297,7 @@ int main (int argc, char **argv) {
   char mud[PATH_MAX];
   vx_init_args (argc, argv);
   selftest = (int) vx_opt_long ("selftest", 0);
+  force_m = (int) vx_opt_long ("force-m", 0);
   midcycles = (int) vx_opt_long ("midcycles", 4);      /* mid-cycle connect / hang-up placed in cycles 1..midcycles */
   if (midcycles < 0) midcycles = 0;
   if (midcycles > 4) midcycles = 4;
